@@ -10,9 +10,7 @@ import VProps.PinC01
 #print axioms V.Pin.C01.json__NewEventJSONsFromEvents
 #print axioms V.Pin.C01.json__SortJSON
 #print axioms V.Pin.C01.json__compactUnicodeEscape
-#print axioms V.Pin.C01.json__isNegativeZeroLiteral
 #print axioms V.Pin.C01.json__noVerifyCanonicalJSON
-#print axioms V.Pin.C01.json__readHexDigits
 #print axioms V.Pin.C01.json__sortJSONArray
 #print axioms V.Pin.C01.json__sortJSONObject
 #print axioms V.Pin.C01.json__sortJSONValue
